@@ -67,6 +67,7 @@ type Env struct {
 
 	Execs     int64 // simulated processes executed
 	PlainExec int64
+	NoPTY     int64 // terminal variants that had to run on a pipe (no pseudo terminal available)
 	TicksSum  int64
 	SimUsSum  int64 // simulated microseconds (ticks + clock jumps)
 	JumpUsSum int64
@@ -232,6 +233,8 @@ type Step struct {
 	// Plain: run the uninstrumented binary with real stdin and real files
 	// (schedule, map order and delivery are whatever the host gives).
 	Plain bool   `json:"plain,omitempty"`
+	// StdoutTTY: standard output is a (pseudo) terminal instead of a pipe
+	StdoutTTY bool `json:"stdout_tty,omitempty"`
 	Note  string `json:"note,omitempty"`
 }
 
@@ -373,8 +376,41 @@ func (e *Env) execSim(w *worker, st *Step, budget int64) (*Result, error) {
 	cmd.Stdout = so
 	cmd.Stderr = se
 	cmd.Stdin = nil
+	var ptyDone chan struct{}
+	var ptyMaster, ptySlave *os.File
+	if st.StdoutTTY {
+		// standard output is a terminal: a real pseudo terminal, so that
+		// isatty-style questions about descriptor 1 get the terminal's answer
+		if m, sl, err := openPTY(); err == nil {
+			ptyMaster, ptySlave = m, sl
+			cmd.Stdout = sl
+			ptyDone = make(chan struct{})
+			go func() {
+				defer close(ptyDone)
+				buf := make([]byte, 32<<10)
+				for {
+					n, err := m.Read(buf)
+					if n > 0 {
+						so.Write(buf[:n])
+					}
+					if err != nil {
+						return
+					}
+				}
+			}()
+		} else {
+			e.mu.Lock()
+			e.NoPTY++
+			e.mu.Unlock()
+		}
+	}
 	t0 := time.Now()
 	runErr := cmd.Run()
+	if ptySlave != nil {
+		ptySlave.Close()
+		<-ptyDone
+		ptyMaster.Close()
+	}
 	res := &Result{Stdout: so.buf.Bytes(), Stderr: se.buf.Bytes(), WallMs: float64(time.Since(t0).Microseconds()) / 1000, Budget: budget}
 	if ctx.Err() != nil {
 		res.TimedOut = true
